@@ -58,7 +58,7 @@ def _ens(n):
 Contract(
     F + ":Condition._with_rescoped_keys_", "C12",
     cases=[Case(f"path length {n}", {}, setup=_setup(n), ensures=_ens(n)) for n in range(0, 5)],
-    env={"B": B},
+    env={"B": B}, inline=[F + ":KeyCondition.replace_key"],
     notes="path length <= 4 (loop unrolled); all bindable sets; key names generic",
 )
 
@@ -154,3 +154,74 @@ CANARIES = CANARIES + [
          find="        sub_operation = protocols.with_measurement_key_mapping(self._sub_operation, key_map)\n        sub_operation = self._sub_operation if sub_operation is NotImplemented else sub_operation\n        return sub_operation.with_classical_controls(*conditions)",
          replace="        sub_operation = self._sub_operation\n        return sub_operation.with_classical_controls(*conditions)"),
 ]
+
+
+# ---- replace_key of the key-based conditions: everything but the key survives ---------------------------------------------------
+from pyvc.interp import SRec as _SRec
+
+
+def _keycond(name):
+    import cirq
+
+    return _SRec(cirq.KeyCondition, {"key": sym.fresh_obj("MKey", "key"), "index": sym.fresh_int("index")})
+
+
+def _maskcond(with_mask):
+    def mk(name):
+        import cirq
+
+        return _SRec(cirq.BitMaskKeyCondition, {"key": sym.fresh_obj("MKey", "key"), "index": sym.fresh_int("index"), "target_value": sym.fresh_int("target"),
+                                                "equal_target": sym.fresh_bool("equal"), "bitmask": sym.fresh_int("mask") if with_mask else None})
+    return mk
+
+
+def _m_evolve(interp, args, kwargs):
+    """attrs.evolve(inst, **changes): a copy of the record with the named fields replaced"""
+    (inst,) = args
+    if isinstance(inst, _SRec):
+        fields = dict(object.__getattribute__(inst, "_fields"))
+        fields.update(kwargs)
+        return _SRec(object.__getattribute__(inst, "_cls"), fields)
+    return NotImplemented
+
+
+Contract(
+    F + ":KeyCondition.replace_key", "C12",
+    params={"self": _keycond, "current": "obj:MKey", "replacement": "obj:MKey"},
+    ensures=["result.key == (replacement if self.key == current else self.key)", "result.index == self.index"],
+    notes="keys abstract; the index (which record of the key is tested) must survive a renaming of the key",
+)
+Contract(
+    F + ":BitMaskKeyCondition.replace_key", "C12",
+    cases=[Case("with a bitmask", {"self": _maskcond(True), "current": "obj:MKey", "replacement": "obj:MKey"}, ensures=["result.bitmask == self.bitmask"]),
+           Case("bitmask None", {"self": _maskcond(False), "current": "obj:MKey", "replacement": "obj:MKey"}, ensures=["result.bitmask is None"])],
+    ensures=["result.key == (replacement if self.key == current else self.key)", "result.index == self.index", "result.target_value == self.target_value",
+             "result.equal_target == self.equal_target"],
+    models={("attr._make", "evolve"): _m_evolve, ("attr._funcs", "evolve"): _m_evolve},
+    notes="keys abstract; index, mask, target and comparison sense must survive a renaming of the key",
+)
+CANARIES = CANARIES + [
+    dict(name="KeyCondition.replace_key resets the index", file=F, function=F + ":KeyCondition.replace_key",
+         find="        return KeyCondition(replacement, self.index) if self.key == current else self", replace="        return KeyCondition(replacement) if self.key == current else self"),
+    dict(name="BitMaskKeyCondition.replace_key rebuilds a bare key condition", file=F, function=F + ":BitMaskKeyCondition.replace_key",
+         find="        return attrs.evolve(self, key=replacement) if self.key == current else self", replace="        return attrs.evolve(self, key=replacement, bitmask=None) if self.key == current else self"),
+]
+
+
+def _replay_replace_key(ob, seed):
+    """concrete call of the real replace_key on conditions whose non-key fields are all non-default"""
+    import cirq
+
+    m, n = cirq.MeasurementKey("m"), cirq.MeasurementKey("n")
+    for c in (cirq.KeyCondition(m, index=0), cirq.BitMaskKeyCondition(m, index=0, target_value=2, equal_target=True, bitmask=6)):
+        try:
+            r = c.replace_key(m, n)
+        except Exception as ex:
+            return dict(args=dict(condition=repr(c), current="m", replacement="n"), failed="replace_key", clause=f"raised {ex!r}")
+        want = type(c)(n, **{f: getattr(c, f) for f in ("index", "target_value", "equal_target", "bitmask") if hasattr(c, f)})
+        if r != want:
+            return dict(args=dict(condition=repr(c), current="m", replacement="n"), failed="replace_key", clause=f"replace_key gives {r!r}; only the key may change: {want!r}")
+    return None
+
+
+REPLAYERS = dict(globals().get("REPLAYERS", {}), **{F + ":KeyCondition.replace_key": _replay_replace_key, F + ":BitMaskKeyCondition.replace_key": _replay_replace_key})
